@@ -61,23 +61,10 @@ def main():
                 reason = why
                 break
         rows.append({"key": list(key), "count": n, "reason": reason or "UNREVIEWED"})
-    # guarded literal-index sites (see C12.index_guard)
+    # locally guarded sites (see C12.guarded_counts)
     sys.path.insert(0, "/verif/sa/rules")
-    import C12, guards
-    from synq import walk
-    g = {}
-    for sdict in sites:
-        if sdict["cls"] != "Vec[]" or not sdict["step"].endswith("[lit]"):
-            continue
-        sf = syn.fn_at(sdict["file"], sdict["l"])
-        if not sf or "body" not in sf:
-            continue
-        par = guards.parents(sf["body"])
-        for nnode in walk(sf["body"]):
-            if nnode.get("k") == "index" and nnode["l"] == sdict["l"] and nnode["i"].get("k") == "lit":
-                if C12.index_guard(nnode, par):
-                    g[sdict["key"]] = g.get(sdict["key"], 0) + 1
-                break
+    import C12
+    g = {k: v["guarded"] for k, v in C12.guarded_counts(sites, syn).items() if v["guarded"]}
     for r in rows:
         if tuple(r["key"]) in g:
             r["guarded"] = g[tuple(r["key"])]
